@@ -727,7 +727,7 @@ class Linbasex(Adapter):
 
     def reset_module(self):
         m = self.mod()
-        m._basis = m._los = m._pas = m._radial_step = m._clip = None
+        m._basis = m._cols = m._los = m._pas = m._radial_step = m._clip = None
 
     @staticmethod
     def ang(a):
@@ -835,7 +835,7 @@ class Linbasex(Adapter):
             return int(round(a))
         return dict(los=[[int(t) for t in m._los.split('-') if t != '']] if has else [],
                     pas=[[unangle(t) for t in m._pas.split('-') if t != '']] if has else [],
-                    stepclip=[int(m._radial_step), int(m._clip)] if has else [],
+                    stepclip=[int(m._radial_step), int(m._clip), int(m._cols)] if has else [],
                     shape=list(m._basis.shape) if m._basis is not None else [],
                     gdir=basis_dir_global(self.env),
                     files=len(self.env.files(self.file_prefix)))
